@@ -158,4 +158,190 @@ def layoutOkB (ts : List Triple) : Bool :=
     | some (p, s) => p + s ≤ total ts
     | none => false)
 
+/-! ## Python side: `struct.pack` / `unpack_from` at the variable's position -/
+
+inductive Err | struct | index | key
+  deriving DecidableEq, Repr, Inhabited
+
+def fits (c : Ch) (v : Int) : Bool := if c.signed then fitsS c.size v else fitsU c.size v
+
+def encElem (big : Bool) (c : Ch) (v : Int) : Option (List UInt8) :=
+  if fits c v then
+    let u := if c.signed then ofSigned c.size v else v.toNat
+    some (if big then encBE c.size u else encLE c.size u)
+  else none
+
+def decElem (big : Bool) (c : Ch) (bs : List UInt8) : Int :=
+  let u := if big then decBE bs else decLE bs
+  if c.signed then toSigned c.size u else (u : Int)
+
+def packElems (big : Bool) (c : Ch) : List Int → Option (List UInt8)
+  | [] => some []
+  | v :: vs =>
+    match encElem big c v, packElems big c vs with
+    | some a, some r => some (a ++ r)
+    | _, _ => none
+
+/-- `pack(fmt, *value)`; for `x` the argument is the scaled integer `int(value * FIXED_BASE)` packed as `q` -/
+def pack : Fmt → List Int → Option (List UInt8)
+  | .fixed, [v] => encElem false .q v
+  | .fixed, _ => none
+  | .arr big n c, vs => if vs.length = n then packElems big c vs else none
+
+def unpackElems (big : Bool) (c : Ch) : Nat → List UInt8 → List Int
+  | 0, _ => []
+  | n + 1, bs => decElem big c (bs.take c.size) :: unpackElems big c n (bs.drop c.size)
+
+def decode : Fmt → List UInt8 → List Int
+  | .fixed, bs => [decElem false .q (bs.take Ch.q.size)]
+  | .arr big n c, bs => unpackElems big c n bs
+
+/-- `unpack_from(fmt, data, pos)`; `struct.error` when the buffer is too short -/
+def unpack (fmt : Fmt) (data : List UInt8) (pos : Nat) : Except Err (List Int) :=
+  if pos + fmtsize fmt ≤ data.length then .ok (decode fmt (slice data pos (pos + fmtsize fmt)))
+  else .error .struct
+
+/-- `b = pack(fmt, *value); data[pos:pos + len(b)] = b` on an mmap (fixed size) -/
+def pySet (data : List UInt8) (fmt : Fmt) (pos : Nat) (vs : List Int) : Except Err (List UInt8) :=
+  match pack fmt vs with
+  | none => .error .struct
+  | some b => if pos + b.length ≤ data.length then .ok (setRange data pos b) else .error .index
+
+/-- `PerCPUVar.__getitem__`: `unpack(instance, data[key * map.size:])` -/
+def percpuGet (data : List UInt8) (mapSize cpus : Nat) (fmt : Fmt) (pos : Nat) (k : Int) :
+    Except Err (List Int) :=
+  if 0 ≤ k ∧ k < cpus then unpack fmt (data.drop (k.toNat * mapSize)) pos else .error .index
+
+/-- what a per-CPU lookup returns: one block per possible CPU, each `round_up(value_size, 8)` long -/
+def kernelStride (valueSize : Nat) : Nat := roundUp 8 valueSize
+
+/-! ## program side, as bytes: an `n`-byte store/load at `r[base] + position` -/
+
+/-- the generated store writes the low `n` bytes of the register (after the byte swap for `>`) -/
+def progStore (data : List UInt8) (big : Bool) (c : Ch) (pos : Nat) (v : Int) : Except Err (List UInt8) :=
+  let n := c.size
+  let u := (v % 2 ^ (8 * n)).toNat
+  if pos + n ≤ data.length then .ok (setRange data pos (if big then encBE n u else encLE n u))
+  else .error .index          -- outside the map value: the verifier refuses / the interpreter faults
+
+/-- the generated load: zero- or sign-extended `n` bytes -/
+def progLoad (data : List UInt8) (big : Bool) (c : Ch) (pos : Nat) : Except Err Int :=
+  if pos + c.size ≤ data.length then .ok (decElem big c (slice data pos (pos + c.size)))
+  else .error .index
+
+/-- single-element view of a format for the program side (`x` is a `q`) -/
+def Fmt.single : Fmt → Option (Bool × Ch)
+  | .fixed => some (false, .q)
+  | .arr big 1 c => some (big, c)
+  | _ => none
+
+/-! ## which maps are initialised for an object -/
+
+structure MapAttr where
+  attr : Nat
+  map : Nat
+  deriving DecidableEq, Repr, Inhabited
+
+/-- `EBPF.__init__`: only `self.__class__.__dict__` -/
+def ebpfDiscover (mro : List (List MapAttr)) : List MapAttr := mro.headD []
+
+/-- `SimulatedEBPF.__init__`: the whole MRO, first attribute of each name -/
+def simDiscoverGo : List MapAttr → List Nat → List MapAttr
+  | [], _ => []
+  | a :: as, seen => if seen.contains a.attr then simDiscoverGo as seen else a :: simDiscoverGo as (a.attr :: seen)
+
+def simDiscover (mro : List (List MapAttr)) : List MapAttr := simDiscoverGo mro.flatten []
+
+/-- each discovered map is collected and gets an array of the collected size -/
+def initMaps (found : List MapAttr) (progs : List Prog) : List (MapAttr × Nat) :=
+  found.map fun a => (a, total (triples a.map progs))
+
+/-! ## an object with its maps: state and operations (what the drivers run) -/
+
+structure St where
+  progs : List Prog
+  arrays : List (Nat × List UInt8)      -- map id → bytes, for the initialised maps
+  deriving Repr, Inhabited
+
+def St.array (s : St) (m : Nat) : Option (List UInt8) := (s.arrays.find? (·.1 = m)).map (·.2)
+
+def St.setArray (s : St) (m : Nat) (d : List UInt8) : St :=
+  { s with arrays := s.arrays.map fun a => if a.1 = m then (m, d) else a }
+
+/-- `if not self.size: return` — a map nobody uses is never created -/
+def mkSt (found : List MapAttr) (progs : List Prog) : St :=
+  ⟨progs, ((initMaps found progs).filter fun (_, sz) => sz != 0).map fun (a, sz) => (a.map, zeros sz)⟩
+
+/-- descriptor, map bytes and position behind `prog.name`; `KeyError` when not collected -/
+def St.locate (s : St) (pid name : Nat) : Except Err (Decl × List UInt8 × Nat) :=
+  match (findProg s.progs pid).bind (resolve · name) with
+  | none => .error .key
+  | some d =>
+    match s.array d.map, positionOf (triples d.map s.progs) (pid, name) with
+    | some data, some pos => .ok (d, data, pos)
+    | _, _ => .error .key
+
+inductive Op
+  | pySet (pid name : Nat) (vs : List Int)
+  | progStore (pid name : Nat) (v : Int)
+  | progCopy (spid sname dpid dname : Nat)
+  deriving Repr, Inhabited
+
+def St.store (s : St) (pid name : Nat) (v : Int) : Except Err St := do
+  let (d, data, pos) ← s.locate pid name
+  match d.fmt.single with
+  | none => .error .struct
+  | some (big, c) => pure (s.setArray d.map (← progStore data big c pos v))
+
+def St.step (s : St) : Op → Except Err St
+  | .pySet pid name vs => do
+    let (d, data, pos) ← s.locate pid name
+    pure (s.setArray d.map (← pySet data d.fmt pos vs))
+  | .progStore pid name v => s.store pid name v
+  | .progCopy spid sname dpid dname => do
+    let (sd, sdata, spos) ← s.locate spid sname
+    match sd.fmt.single with
+    | none => .error .struct
+    | some (big, c) => s.store dpid dname (← progLoad sdata big c spos)
+
+def St.pyGet (s : St) (pid name : Nat) : Except Err (List Int) := do
+  let (d, data, pos) ← s.locate pid name
+  unpack d.fmt data pos
+
+/-- run the operations; an operation that raises leaves the state as it was -/
+def St.run (s : St) : List Op → St × List (Option Err)
+  | [] => (s, [])
+  | op :: ops =>
+    match s.step op with
+    | .ok s' => let (f, es) := s'.run ops; (f, none :: es)
+    | .error e => let (f, es) := s.run ops; (f, some e :: es)
+
+/-- one program invocation: the verifier checks every (constant-offset) map access before anything
+runs, so a program with one access outside the map value has no effect at all -/
+def St.runProgram (s : St) (ops : List Op) : St × Option Err :=
+  match ops.foldlM (fun st op => st.step op) s with
+  | .ok s' => (s', none)
+  | .error e => (s, some e)
+
+/-! ## `DeviceVar.__get__/__set__`: dispatch on the device's sync group -/
+
+inductive GroupKind
+  | none        -- `sync_group is None`
+  | plain       -- a sync group that is no `EBPFBase` (slow `SyncGroup`)
+  | loaded      -- an `EBPFBase` with `loaded` true (`ProcessSyncGroup`, loaded `FastSyncGroup`)
+  deriving DecidableEq, Repr, Inhabited
+
+inductive GetRes
+  | selfRef                      -- `(instance, name)`
+  | val (vs : List Int)
+  | err (e : Err)
+  deriving Repr, Inhabited
+
+/-- `dict` is the device's own `__dict__[name]` (plain groups keep the value there) -/
+def devGet (kind : GroupKind) (dict : Option (List Int)) (arr : Except Err (List Int)) : GetRes :=
+  match kind with
+  | .none => .selfRef
+  | .plain => .val (dict.getD [0])
+  | .loaded => match arr with | .ok v => .val v | .error e => .err e
+
 end Ebv.Collect
